@@ -29,6 +29,17 @@ CHECKS = {
         "level_note": "The catalogue is finite (13 struct types); types outside it are not covered. Lists of pointers are excluded while finding F05 is open. Trusts harness/ref and the harness's reading of the documented Go mapping (typed/walk.go, self-tested against SchemaOf).",
         "design_ref": "DESIGN.md §4 C03",
     },
+    "C17": {
+        "pkg": "c17", "level": "exploration",
+        "quick": {"checks": 300, "timeout": 900, "digests": True,
+                  "stages": [{"variant": "asm", "shards": 6}, {"variant": "purego", "shards": 6}]},
+        "thorough": {"checks": 4000, "timeout": 5000, "digests": True,
+                     "stages": [{"variant": "asm", "shards": 8}, {"variant": "purego", "shards": 8}, {"variant": "simd", "shards": 8}]},
+        "technique": "property-based metamorphic testing (rapid): same rows+options through fresh writers, a writer reused via Reset after a generated prior history (closed / abandoned / failed), and other builds; sha256 equality",
+        "level_text": "Random search over (rows, options, write history) x prior history on the same writer instance x build variant; the oracle is byte equality of the produced files, within one process (fresh vs fresh vs reused-after-Reset) and across the asm / purego / GOEXPERIMENT=simd builds by joining per-case digests produced from identical rapid seeds.",
+        "level_note": "Go map-typed values and encryption excluded (as the property states). One AVX-512 CPU: run-time kernel selection is covered only as build variants. Buffers (GenericBuffer.Reset) are exercised by C10.",
+        "design_ref": "DESIGN.md §4 C17",
+    },
 }
 
 NOT_APPLICABLE = {
